@@ -214,6 +214,10 @@ type verifRecQueue struct {
 	mu     sync.Mutex
 	hist   []*Event
 	clears int
+	// one-shot interleaving points for the harness: run in the goroutine that calls clear(), i.e. inside
+	// peer.initStream's clean start, right before / right after the queue is cleared
+	beforeClear func()
+	afterClear  func()
 }
 
 func (r *verifRecQueue) add(e *Event) {
@@ -224,11 +228,37 @@ func (r *verifRecQueue) add(e *Event) {
 }
 
 func (r *verifRecQueue) clear() {
+	r.mu.Lock()
+	before, after := r.beforeClear, r.afterClear
+	r.beforeClear, r.afterClear = nil, nil
+	r.mu.Unlock()
+	if before != nil {
+		before()
+	}
 	r.eventQueue.clear()
 	r.mu.Lock()
 	r.hist = nil
 	r.clears++
 	r.mu.Unlock()
+	if after != nil {
+		after()
+	}
+}
+
+// OnPeerQueueClear arms one-shot callbacks that run when the peer's queue is cleared the next time (RecordPeerQueue first):
+// `before` on entry of clear(), `after` right after it. Either may be nil.
+func (v *VerifFed) OnPeerQueueClear(name string, before, after func()) bool {
+	v.F.memberMu.Lock()
+	defer v.F.memberMu.Unlock()
+	if p := v.F.peers[name]; p != nil {
+		if q, ok := p.queue.(*verifRecQueue); ok {
+			q.mu.Lock()
+			q.beforeClear, q.afterClear = before, after
+			q.mu.Unlock()
+			return true
+		}
+	}
+	return false
 }
 
 // RecordPeerQueue wraps the peer's real queue so that PeerHistory can report what was emitted.
